@@ -11,7 +11,7 @@ from ..common import GLOBAL_TRUSTED_BASE
 from ..model import call_many
 from ..pool import guarded, run_cases
 
-THEOREMS = ["C05_one_pk", "C05_examples"]
+THEOREMS = ["C05_one_pk", "C05_examples", "C05_variants_share_the_column_source"]
 VARIANTS = ("sqlalchemy", "sqlalchemy_table", "sqlalchemy_hybrid")
 STYLES = ("rest", "google", "numpydoc")
 COLNAMES = ["size", "label", "active", "ratio", "note", "count", "dataset_name", "user_id", "id", "id_code", "title", "weight", "_rev", "_hidden"]
